@@ -45,7 +45,8 @@ CHUNK_S = {"daily": 30 * DAY, "weekly": 84 * DAY, "monthly": 365 * DAY, "yearly"
 
 ZONES = ["America/Los_Angeles", "Europe/London", "Australia/Lord_Howe", "Asia/Kathmandu",
          "America/St_Johns", "Africa/Cairo", "America/Havana", "Asia/Kolkata", "UTC",
-         "Pacific/Chatham"]
+         "Pacific/Chatham",
+         "America/Nuuk", "Pacific/Easter"]      # clocks go forward in the evening (Saturday 22:00 / 23:00)
 
 # share of MONTHLY/YEARLY rules of part "forward" whose BYDAY mixes plain and n-th weekdays (known
 # finding KF-MIXED-BYDAY-C07: dateutil reads the list as a conjunction); only the non-empty variant
